@@ -440,6 +440,19 @@ def r_push_sorted(ctx, rule='R-PUSH-SORTED'):
                     adds = [x for x in on_src if x.callee.endswith(('RoaringBitmap>::insert', 'RoaringBitmap>::push', 'bitor_assign', 'Extend::extend', 'RoaringBitmap>::insert_range', 'bitxor_assign', 'RoaringBitmap>::append'))]
                     if removes and not adds:
                         ascending = True
+            if not ascending and f.kind == 'Closure' and any(x[0] == 'arg' and x[1] >= 2 for x in walk(v)):
+                # the element parameter of a closure folded over an ascending iteration (LMDB prefix scan / bitmap iteration)
+                for g in F.lib_fns():
+                    for x in g.calls():
+                        if x.callee.endswith(('Iterator::try_fold', 'Iterator::fold', 'Iterator::for_each', 'Iterator::try_for_each')) and len(x.args) >= 2:
+                            clo = strip(x.arg_term(len(x.args) - 1))
+                            if clo[0] == 'closure' and clo[1] == f.path:
+                                src = x.arg_term(0)
+                                names = [y[1] for y in walk(src) if y[0] == 'call']
+                                sorted_src = any('prefix_iter' in n or n.endswith(('RoaringBitmap>::iter', 'RoaringBitmap>::into_iter')) or ('range' in n and n.startswith('heed::')) for n in names)
+                                lossy_order = any(n.endswith(('Iterator::rev', 'Iterator::chain', 'Iterator::flat_map', 'Iterator::flatten')) for n in names)
+                                if sorted_src and not lossy_order:
+                                    ascending = True
             ctx.check(used or ascending, rule, key, c.loc(), 'pushed value comes from an ascending iteration' if ascending else 'push result is checked',
                       '`RoaringBitmap::push` in `%s` is fed with %s, which is not taken from an ascending iteration, and its result is ignored: the value is silently dropped unless it is larger than everything already in the bitmap' % (f.path, show(v)[:80]))
     ctx.floor(rule, 'RoaringBitmap::push sites', n, 3)
@@ -1154,18 +1167,20 @@ def r_progress(ctx, rule='Q-PROGRESS'):
         for l in T.arg_locals():
             if 'RoaringBitmap' in T.local_ty(l):
                 item_param = l
-        guards = []  # (param local, truth required on the bucket path)
+        site_guards = []  # per bucket-return site: [(param local, truth required on the bucket path)]
         bucket_sites = []
         for c in T.calls():
             if c.callee == 'parallel::TmpNodes::<DE>::put':
                 d = paths.agg_fields(c.arg_term(2), 'node::Descendants')
                 if d and any(x[0] == 'arg' and x[1] == item_param for x in walk(d['descendants'])):
                     bucket_sites.append(c)
+                    gs = []
                     for s0, x0, e in paths.controlling_conds(T, c.bb):
                         if e[0] == 'bool' and paths.edge_dominates(T, s0, x0, c.bb):
                             t0 = strip(e[1])
                             if t0[0] == 'arg' and T.local_ty(t0[1]) == 'bool':
-                                guards.append((t0[1], e[2]))
+                                gs.append((t0[1], e[2]))
+                    site_guards.append((c, gs))
         for W in F.lib_fns():
             if not W.path.startswith('writer::Writer') or W.path == T.path:
                 continue
@@ -1196,7 +1211,7 @@ def r_progress(ctx, rule='Q-PROGRESS'):
                 key = '%s->%s' % (W.path, short(T.path))
                 good = False
                 why = 'the constructor can return a single bucket for a fitting batch whatever remains to be inserted'
-                for pl, need in guards:
+                def disabled(pl, need):
                     at = strip(c.arg_term(pl - 1))
                     neg = False
                     while at[0] == 'unop' and at[1] == 'Not':
@@ -1206,9 +1221,15 @@ def r_progress(ctx, rule='Q-PROGRESS'):
                         r = root(at[2][0])
                         if r == cand or (r[0] == 'call' and cand[0] == 'call' and r[3] == cand[3]):
                             val_when_remainder = (not False) if neg else False  # is_empty() is false when a remainder exists
-                            if val_when_remainder != need:
-                                good = True
-                                why = 'the bucket shortcut of the constructor is disabled while a remainder exists'
+                            return val_when_remainder != need
+                    return False
+                # every site where the constructor hands back its whole input as one bucket must be switched off
+                unguarded = [bc for bc, gs in site_guards if not any(disabled(pl, need) for pl, need in gs)]
+                good = bool(site_guards) and not unguarded
+                if good:
+                    why = 'every bucket shortcut of the constructor is disabled while a remainder exists'
+                elif unguarded:
+                    why = 'bucket return at %s is not disabled while a remainder exists' % unguarded[0].loc()
                 ctx.check(good, rule, key, c.loc(), why,
                           'in `%s` an over-full bucket is rebuilt from a partial batch by `%s`, which may return one bucket when the batch fits, and the remainder is then re-inserted into it (%s): with a bucket capacity >= the minimum batch size and a small memory hint the same over-full bucket is recreated forever and the build never terminates' % (
                               W.path, short(T.path), ', '.join(sorted({short(x.callee) for x in later}))))
@@ -1291,6 +1312,19 @@ def fit_call_on(f, t, len_of=None):
     return None
 
 
+def option_or_default(t):
+    """(option term, default term) when `t` is `o.unwrap_or(d)` / `o.map_or(d, |x| x)` / `match o { Some(x) => x, None => d }`"""
+    t0 = strip(t)
+    if t0[0] == 'call' and t0[1].endswith('::unwrap_or') and len(t0[2]) == 2:
+        return t0[2][0], t0[2][1]
+    if t0[0] == 'phi' and len(t0[2]) == 2:
+        some = [a for a in t0[2] if strip(a)[0] == 'field' and strip(a)[2] == '0' and strip(strip(a)[1])[0] == 'downcast' and strip(strip(a)[1])[2] == 'Some']
+        other = [a for a in t0[2] if a not in some]
+        if len(some) == 1 and len(other) == 1:
+            return strip(strip(some[0])[1])[1], other[0]
+    return None
+
+
 def r_capacity(ctx, rule='R-CAPACITY'):
     F = ctx.F
     fit = F.one('writer::Writer::<D>::fit_in_descendant')
@@ -1302,7 +1336,8 @@ def r_capacity(ctx, rule='R-CAPACITY'):
             if t[0] == 'binop' and t[1] == 'Le' and strip(t[2])[0] == 'arg':
                 r = strip(t[3])
                 inner = strip(r[2]) if r[0] == 'cast' else r
-                good = inner[0] == 'call' and inner[1].endswith('::unwrap_or') and 'split_after' in show(inner[2][0]) and 'dimensions' in show(inner[2][1])
+                od = option_or_default(inner)
+                good = od is not None and 'split_after' in show(od[0]) and 'dimensions' in show(od[1])
         ctx.check(good, rule, 'fit_in_descendant/formula', fit.loc(), 'n <= split_after.unwrap_or(dimensions)', 'fit_in_descendant is not `n <= split_after.unwrap_or(dimensions)`')
     be = C06.build_entry(F)
     n = 0
@@ -1417,14 +1452,37 @@ def r_tree_count(ctx, rule='R-NTREES'):
     be = C06.build_entry(F)
     if not ctx.need(t is not None and be is not None, rule, 'target_n_trees / build entry'):
         return
-    # Some(n) => n unchanged
+    # Some(n) => n unchanged: on the Some edge of the match on the option, every value that can still reach the return is n
+    def is_n(term):
+        s0 = strip(term)
+        inner = strip(s0[2]) if s0[0] == 'cast' else s0
+        return inner[0] == 'field' and 'n_trees' in show(inner) and 'Some' in show(inner)
     good = False
-    for b, k, tt in paths.ret_assigns(t):
-        s = strip(tt)
-        inner = strip(s[2]) if s[0] == 'cast' else s
-        if inner[0] == 'field' and 'n_trees' in show(inner) and 'Some' in show(inner):
-            conds = [e for ss, x, e in paths.controlling_conds(t, b) if e[0] == 'disc' and 'n_trees' in show(e[1])]
-            good = bool(conds) and any(1 in e[2] for e in conds)
+    some_edges = []
+    for b0 in t.live_blocks():
+        for x0 in t.succ(b0):
+            e = paths.edge_cond(t, b0, x0)
+            if e and e[0] == 'disc' and 'n_trees' in show(e[1]) and 1 in e[2] and not e[3]:
+                some_edges.append(x0)
+    if some_edges:
+        region = set()
+        for x0 in some_edges:
+            region |= t.reachable(x0) | {x0}
+        # values of the returned local defined inside the Some region (or flowing into it from before the match)
+        vals = []
+        ret_locals = set()
+        for bi in t.live_blocks():
+            for st in t.blocks[bi]['stmts']:
+                if st['place']['l'] == 0 and not st['place']['p'] and st['rv']['k'] == 'use' and st['rv']['o'].get('k') in ('copy', 'move') and not st['rv']['o']['place']['p']:
+                    ret_locals.add(st['rv']['o']['place']['l'])
+                elif st['place']['l'] == 0 and not st['place']['p'] and bi in region:
+                    vals.append(t._def_term(('assign', bi, 0, st['rv'], []), 0, frozenset()))
+        for l in ret_locals:
+            for d in t.defs().get(l, []):
+                if d[-1] or d[1] not in region:
+                    continue
+                vals.append(t._def_term(d, 0, frozenset([l])))
+        good = bool(vals) and all(is_n(v) for v in vals)
     ctx.check(good, rule, 'explicit-count', t.loc(), 'Some(n) => n', 'an explicitly requested tree count is not used unchanged')
     # build: extra trees deleted down to the target; missing trees created up to it
     tc = [c for c in be.calls() if c.callee == t.path]
